@@ -64,6 +64,63 @@ type pkgT struct {
 	busy  bool
 }
 
+// funcDecls: every function of the scanned packages, for the small inter-procedural question below
+var funcDecls = map[*types.Func]*ast.FuncDecl{}
+
+// lengthPreserving: does fn(xs) always return a slice of len(xs)? Recognised shape: the body starts with
+// `if len(p) != K { return p }` and every other return gives back p itself or a composite literal of K elements
+// (derive.TypedPair); or every return gives back p itself.
+func lengthPreserving(fn *types.Func) bool {
+	fd := funcDecls[fn]
+	if fd == nil || fd.Body == nil || fd.Type.Params == nil || len(fd.Type.Params.List) != 1 || len(fd.Type.Params.List[0].Names) != 1 {
+		return false
+	}
+	p := fd.Type.Params.List[0].Names[0].Name
+	k := -1
+	if len(fd.Body.List) > 0 {
+		if is, ok := fd.Body.List[0].(*ast.IfStmt); ok && is.Init == nil && is.Else == nil {
+			if g, exact := condGuard(is.Cond, p); exact && g.op == "ne" && len(is.Body.List) == 1 {
+				if r, ok := is.Body.List[0].(*ast.ReturnStmt); ok && len(r.Results) == 1 && exprStr(r.Results[0]) == p {
+					k = g.n
+				}
+			}
+		}
+	}
+	ok := true
+	assigned := false
+	ast.Inspect(fd.Body, func(n ast.Node) bool {
+		switch x := n.(type) {
+		case *ast.FuncLit:
+			return false
+		case *ast.AssignStmt:
+			for _, l := range x.Lhs {
+				if id, isId := l.(*ast.Ident); isId && id.Name == p {
+					assigned = true
+				}
+			}
+		case *ast.ReturnStmt:
+			if len(x.Results) != 1 {
+				ok = false
+				return true
+			}
+			if exprStr(x.Results[0]) == p {
+				return true
+			}
+			if cl, isLit := x.Results[0].(*ast.CompositeLit); isLit && k >= 0 && len(cl.Elts) == k {
+				for _, e := range cl.Elts {
+					if _, kv := e.(*ast.KeyValueExpr); kv {
+						ok = false
+					}
+				}
+				return true
+			}
+			ok = false
+		}
+		return true
+	})
+	return ok && !assigned
+}
+
 type world struct {
 	fset    *token.FileSet
 	module  string
@@ -472,9 +529,10 @@ func terminates(list []ast.Stmt) bool {
 }
 
 type indexUse struct {
-	site  string
-	index int
-	guard *guard
+	site    string
+	index   int
+	guard   *guard
+	noEntry bool // recorded after the parameter was reassigned: the function's entry condition does not apply
 }
 
 type callSite struct { // a call that passes the caller's typs on to a helper
@@ -498,13 +556,17 @@ type typsWalker struct {
 	uses    *[]indexUse
 	calls   *[]callSite
 	onCall  func(c *ast.CallExpr, g *guard)
-	written bool // param reassigned somewhere: guards unusable
+	written bool // param reassigned inside a nested block: guards unusable
+	depth   int
+	reset   bool // param reassigned in the function's own statement list
 }
 
 func (tw *typsWalker) stmts(list []ast.Stmt, g *guard) *guard {
+	tw.depth++
 	for _, s := range list {
 		g = tw.stmt(s, g)
 	}
+	tw.depth--
 	return g
 }
 
@@ -585,14 +647,33 @@ func (tw *typsWalker) stmt(s ast.Stmt, g *guard) *guard {
 		tw.stmts(x.Body.List, g)
 		return g
 	case *ast.AssignStmt:
+		reassigned := false
 		for _, l := range x.Lhs {
 			if id, ok := l.(*ast.Ident); ok && id.Name == tw.param && x.Tok == token.ASSIGN {
-				tw.written = true
+				reassigned = true
 			}
 			tw.expr(l, g)
 		}
 		for _, r := range x.Rhs {
 			tw.expr(r, g)
+		}
+		if reassigned && len(x.Lhs) == 1 && len(x.Rhs) == 1 {
+			// `typs = F(typs)` with a length-preserving F of the repo keeps what is known about len(typs)
+			if c, ok := x.Rhs[0].(*ast.CallExpr); ok && len(c.Args) == 1 && exprStr(c.Args[0]) == tw.param {
+				if fn := calleeFunc(tw.info, c); fn != nil && lengthPreserving(fn) {
+					reassigned = false
+				}
+			}
+		}
+		if reassigned {
+			// `typs = f(typs)`: what was known about len(typs) no longer holds. In the function's own statement list
+			// the knowledge is simply dropped from here on (later checks count again); inside a nested block the
+			// whole function is treated as unguarded.
+			if tw.depth == 1 {
+				tw.reset = true
+				return gAtom("tt", 0)
+			}
+			tw.written = true
 		}
 		return g
 	case *ast.ExprStmt:
@@ -637,7 +718,7 @@ func (tw *typsWalker) expr(e ast.Expr, g *guard) {
 		case *ast.IndexExpr:
 			if id, ok := x.X.(*ast.Ident); ok && id.Name == tw.param {
 				if k, ok := intLit(x.Index); ok {
-					*tw.uses = append(*tw.uses, indexUse{tw.site, k, g})
+					*tw.uses = append(*tw.uses, indexUse{tw.site, k, g, tw.reset})
 				}
 			}
 		case *ast.SliceExpr:
@@ -648,7 +729,7 @@ func (tw *typsWalker) expr(e ast.Expr, g *guard) {
 					}
 					if k, ok := intLit(b); ok && k > 0 {
 						// typs[k:] / typs[:k] needs len >= k, i.e. index k-1 valid
-						*tw.uses = append(*tw.uses, indexUse{tw.site, k - 1, g})
+						*tw.uses = append(*tw.uses, indexUse{tw.site, k - 1, g, tw.reset})
 					}
 				}
 			}
@@ -762,6 +843,17 @@ func main() {
 	sort.Strings(w.order)
 	for _, p := range w.order {
 		w.check(w.pkgs[p])
+	}
+	for _, pp := range w.order {
+		for _, f := range w.pkgs[pp].files {
+			for _, d := range f.Decls {
+				if fd, ok := d.(*ast.FuncDecl); ok {
+					if o, ok := w.pkgs[pp].info.Defs[fd.Name].(*types.Func); ok {
+						funcDecls[o] = fd
+					}
+				}
+			}
+		}
 	}
 
 	fx := &facts{entry: map[string]*guard{}}
@@ -1262,7 +1354,11 @@ func main() {
 	for _, fn := range fns {
 		e, _ := resolve(fn)
 		for _, u := range funcUses[fn] {
-			fx.uses = append(fx.uses, indexUse{u.site, u.index, gAnd(e, u.guard)})
+			if u.noEntry {
+				fx.uses = append(fx.uses, indexUse{u.site, u.index, u.guard, true})
+			} else {
+				fx.uses = append(fx.uses, indexUse{u.site, u.index, gAnd(e, u.guard), false})
+			}
 		}
 	}
 
